@@ -88,6 +88,10 @@ CHECKS = {
             "§6 C13",
             "unbounded proofs of the wide-offset arithmetic + extraction + differential correspondence with I/O accounting on sparse multi-terabyte files",
             "PARTIAL: the I/O bound (no scan, no dependence on allocated data) is measured on the real code against a bound computed from the generator's geometry, not yet proved on an instrumented model (planned: footprint theorems 'the result depends only on the bytes of the tables and units the request maps to'). Read-ahead inside Python's own file objects is outside the model."),
+    "C16": ("Lean 4 theorems over a model of util/envelope.py + tools/envelope.py with SHA-256 / PBKDF2 / AES-GCM as parameters (structure Crypto, no axioms): attrs_roundtrip (read(pack as) = as for every well-formed attribute list of all twelve types, by induction), header_repack_identity (the re-serialised header fed to GCM is the stored block), padding_strip (every payload and padding length incl. 0), decrypt_fail_closed / decrypt_wrong_key (key-hash gate, missing IV, tag mismatch => error, no plaintext), aad_covers (success => stored tag = tag over header||AAD and ciphertext), keystore_deterministic (key = pbkdf2(data1||SALT, data2, 100000) of the stored values, pure function), cli_writes_exactly, envelope_roundtrip (open + decrypt of header||ciphertext||AEAD footer returns exactly the payload); layouts, magics, salt, type map, literals re-extracted each run; independent envelope/keystore writer (pycryptodome) vs real code vs model; the model's crypto is a finite table computed with the real libraries for exactly the model's calls",
+            "§6 C16",
+            "unbounded proofs (induction over attribute lists; control-flow theorems over abstract crypto) + extraction + differential correspondence incl. tamper enumeration, keystore sequences in one process and the CLI in a temp dir",
+            "Crypto is a parameter: AES-GCM's own authenticity / PBKDF2 / SHA-256 are the libraries'. Modelled, not verified: cstruct, CPython float32<->double conversion, str.strip/split/partition, urllib unquote, binascii base64 (non-strict), UTF-8 validity, pycryptodome verify() and key-length check. Known finding D27 (float32 signalling-NaN attribute breaks the MAC) is listed in known_findings.json."),
 }
 
 NOT_YET = {
